@@ -644,6 +644,37 @@ def endpoint_families(rec, rng):
             rec.violation(key, f"{path!r} denotes {want!r}; following the router gives {got!r} via {trail!r}", {"family": "nested-argument-sets", "path": path}, monitor="follow")
             return
 
+    # (c) redirect targets whose variable part needs quoting in a URL (an item of an any(...) converter with a blank, a
+    # non-ASCII letter or a percent sign; text values with the same; numbers padded to a fixed width)
+    m = Map([Rule('/city/<any("new york", "são paulo", "50%", oslo):c>/', endpoint="city"), Rule('/c/<any("new york", "são paulo", "50%", oslo):c>', endpoint="city", alias=True),
+             Rule("/town/", endpoint="town", defaults={"c": "new york"}), Rule('/town/<any("new york", "são paulo", "50%", oslo):c>/', endpoint="town"),
+             Rule("/n/<name>/", endpoint="named"), Rule("/name/<name>", endpoint="named", alias=True),
+             Rule("/item/<int(fixed_digits=4):n>", endpoint="item"), Rule("/i/<int:n>", endpoint="item", alias=True),
+             Rule("/doc/", endpoint="doc", defaults={"n": 7}), Rule("/doc/<int(fixed_digits=3):n>/", endpoint="doc")])
+    for city in ("new york", "são paulo", "50%", "oslo"):
+        for path, want in ((f"/c/{city}", ("city", (("c", city),))), (f"/city/{city}", ("city", (("c", city),))), (f"/town/{city}/", ("town", (("c", city),))),
+                           (f"/name/{city}", ("named", (("name", city),))), (f"/n/{city}", ("named", (("name", city),)))):
+            try:
+                got, trail = follow(m, "http", path)
+            except Exception as e:  # noqa: BLE001 (whatever escapes from match() instead of a redirect)
+                got, trail = ("escaped", type(e).__name__, str(e)[:60]), []
+            rec.case()
+            rec.nontrivial(("quoted-redirect-targets", path))
+            rec.observe("redirects_to_targets_that_need_quoting")
+            if got != ("match",) + want or len(trail) > 2 or not all(u.isascii() and " " not in u for u in trail):
+                key = "C12/redirect-chain-does-not-terminate" if got == ("loop",) else "C12/redirect-not-issued-for-a-value-that-needs-quoting" if got[0] == "escaped" else "C12/redirect-changes-endpoint-or-arguments"
+                rec.violation(key, f"{path!r} denotes {want!r}; following the router gives {got!r} via {trail!r}", {"family": "quoted-redirect-targets", "path": path}, monitor="follow")
+                return
+    for path, want in (("/i/42", ("item", (("n", 42),))), ("/i/0", ("item", (("n", 0),))), ("/item/0042", ("item", (("n", 42),))), ("/doc/007/", ("doc", (("n", 7),))), ("/doc/012", ("doc", (("n", 12),)))):
+        got, trail = follow(m, "http", path)
+        rec.case()
+        rec.nontrivial(("padded-redirect-targets", path))
+        rec.observe("redirects_to_targets_that_need_quoting")
+        if got != ("match",) + want or len(trail) > 2:
+            rec.violation("C12/redirect-target-NotFound" if got == ("NotFound",) else "C12/redirect-changes-endpoint-or-arguments", f"{path!r} denotes {want!r}; following the router gives {got!r} via {trail!r}",
+                          {"family": "padded-redirect-targets", "path": path}, monitor="follow")
+            return
+
 
 def concurrent_first_use(rec, rng, n):
     """Two threads hit a fresh map at once (yields injected inside Map.update): an alias registered before its
